@@ -41,7 +41,13 @@ const (
 
 type cfg struct {
 	Active bool `json:"active"`
+	// Start: "" = a fresh connection object; "selected" = the history starts from an established,
+	// Selected session (Open(background), peer connect, select — applied through the same steps)
+	Start string `json:"start,omitempty"`
 }
+
+// alphaSelected: the alphabet of the histories that start from a Selected session.
+var alphaSelected = []string{"close", "send", "update", "updateWT0", "openBG", "peerClose", "peerStall", "adv100ms", "adv3s"}
 
 var alphaActive = []string{"openBG", "openWait", "close", "send", "update", "dialAccept", "dialRefuse", "dialBlackhole",
 	"peerSelect", "peerReject", "peerClose", "peerStall", "adv100ms", "adv3s"}
@@ -68,6 +74,7 @@ type world struct {
 	open    bool // reference: the connection is logically open
 	everOpn bool
 	overlap bool // some Open/Close was started while another lifecycle call was still pending
+	wt0     bool // UpdateConfigOptions(WithWriteTimeout(0)) was called: writes are unbounded by documentation
 	hist    []string
 }
 
@@ -207,9 +214,18 @@ func (x *world) apply(ev string) {
 		}
 		x.start("close", closeTimeout+connTimeout, func() error { return w.C.Close() })
 		x.open = false
+	case "updateWT0":
+		// 0 is the documented "no write bound" value: from here on a send may sit in a write to a
+		// peer that does not read for as long as the link lives — but Close still ends everything
+		x.wt0 = true
+		x.start("update", 0, func() error { return w.C.UpdateConfigOptions(hsms.WithWriteTimeout(0)) })
 	case "send":
 		ctx, cancel := context.WithTimeout(context.Background(), sendCtx)
-		x.start("send", sendCtx, func() error {
+		bound := sendCtx
+		if x.wt0 {
+			bound = finalHorizon + 2*closeTimeout // judged after the final Close (final)
+		}
+		x.start("send", bound, func() error {
 			defer cancel()
 			_, err := w.C.SendDataMessage(ctx, 1, 1, true, item())
 			return err
@@ -293,7 +309,24 @@ func run(t *testing.T, cf cfg, hist []string, onLeak func(string)) *failure {
 			hsms.WithCloseTimeout(closeTimeout), hsms.WithWriteTimeout(time.Second), hsms.WithReconnectBackoff(100*time.Millisecond, 2),
 		}, Extra: []hsmsss.Option{hsmsss.WithConnectTimeout(connTimeout)}})
 		x.resetParser()
+		if cf.Start == "selected" {
+			pre := []string{"openBG", "peerSelect"}
+			if !cf.Active {
+				pre = []string{"openBG", "peerConnect", "peerSelect"}
+			}
+			for _, ev := range pre {
+				x.apply(ev)
+				x.reap()
+			}
+			if x.fail == nil && w.C.State() != hsms.SelectedState {
+				x.fail = &failure{"harness", fmt.Sprintf("start state: State()=%v after %v", w.C.State(), pre)}
+			}
+			x.hist = append(x.hist, "|")
+		}
 		for _, ev := range hist {
+			if x.fail != nil {
+				break
+			}
 			x.apply(ev)
 			x.reap()
 			if x.fail != nil {
@@ -358,6 +391,12 @@ func (x *world) final() {
 	if !c1.h.Done() {
 		x.bad("blocked:close", "final Close did not return")
 		return
+	}
+	for _, c := range x.calls {
+		if !c.h.Done() {
+			x.bad("blocked-after-close:"+c.kind, "%s (started at %v) has still not returned after the final Close returned", c.kind, c.h.Start)
+			return
+		}
 	}
 	if !x.everOpn {
 		if !errors.Is(c1.err, hsms.ErrNotOpen) {
@@ -462,7 +501,7 @@ type replayCase struct {
 func TestCheck(t *testing.T) {
 	vfw.Main(t, "C10", func(c *vfw.Ctx) {
 		c.Level("model_checking")
-		c.Rule("E2 tree search: every history of length <= D (quick 3, thorough 4) over {Open(background), Open(wait, ctx 2s), Close, SendDataMessage(ctx 1s), UpdateConfigOptions, dial answer accept/refuse/black-hole, peer connect / select ok / select reject / close / stall, advance 100ms / 3s}, each API call on its own goroutine, on a fresh real hsmsss connection (active and passive) in a synctest bubble; after every step: no panic, every call within its documented virtual-time bound, Open-on-open = ErrAlreadyOpen without side effects; then a final phase per history: Close within close timeout, idempotent re-Close, State()=NotConnected, no dial/listen for 12 s, every socket and listener closed, no library goroutine, re-Open + select + round trip + Close works. state = history prefix; non-trivial = length >= 1")
+		c.Rule("E2 tree search: every history of length <= D (quick 3, thorough 4) over {Open(background), Open(wait, ctx 2s), Close, SendDataMessage(ctx 1s), UpdateConfigOptions, dial answer accept/refuse/black-hole, peer connect / select ok / select reject / close / stall, advance 100ms / 3s}, each API call on its own goroutine, on a fresh real hsmsss connection (active and passive) in a synctest bubble; after every step: no panic, every call within its documented virtual-time bound, Open-on-open = ErrAlreadyOpen without side effects; the same from a Selected session (established through the same steps) with histories of length <= D-1 over {Close, SendDataMessage, UpdateConfigOptions, UpdateConfigOptions(WithWriteTimeout(0)) = the documented 'no write bound', Open(background), peer close / stall, advance 100ms / 3s}; then a final phase per history: Close within close timeout, every API call started in the history has returned by then, idempotent re-Close, State()=NotConnected, no dial/listen for 12 s, every socket and listener closed, no library goroutine, re-Open + select + round trip + Close works. state = history prefix; non-trivial = length >= 1")
 		c.Assume("testing/synctest", "sim network (black-holed dials end at the configured connect timeout)", "handlers return immediately")
 		onLeak := func(string) {}
 		if c.Replay != nil {
@@ -482,10 +521,14 @@ func TestCheck(t *testing.T) {
 		if c.Thorough() {
 			D = 4
 		}
-		for _, cf := range []cfg{{Active: true}, {Active: false}} {
+		for _, cf := range []cfg{{Active: true}, {Active: false}, {Active: true, Start: "selected"}, {Active: false, Start: "selected"}} {
 			alpha := alphaPassive
 			if cf.Active {
 				alpha = alphaActive
+			}
+			D := D
+			if cf.Start == "selected" {
+				alpha, D = alphaSelected, D-1
 			}
 			for d := 1; d <= D; d++ {
 				if d < D && d > 2 {
@@ -545,6 +588,10 @@ func one(c *vfw.Ctx, t *testing.T, cf cfg, h []string) {
 	e2.OnWedge, e2.OnDeadlock = nil, nil
 	c.Case(true)
 	c.Graph(0, 0, 1)
+	if f != nil && f.key == "harness" {
+		c.HarnessError("%s", f.desc)
+		return
+	}
 	if f != nil {
 		c.Violate(f.key, f.desc, replayCase{cf, h})
 		c.Outcome("violation:" + f.key)
